@@ -2,9 +2,11 @@
 # dev.sh <ID> <tier> : run a check of the *working tree* of /verif against a private checkout of /repo's HEAD, so that
 # development runs neither wait for nor see seeded changes applied to /repo by try_seed.sh. Never writes /verif/evidence.
 [ -d /tmp/devrepo ] || git -C /repo worktree add -q --detach /tmp/devrepo HEAD
-git -C /tmp/devrepo checkout -q --detach "$(git -C /repo rev-parse HEAD)"; cp /repo/Cargo.lock /tmp/devrepo/ 2>/dev/null
+git -C /tmp/devrepo checkout -q -- . ; git -C /tmp/devrepo checkout -q --detach "$(git -C /repo rev-parse HEAD)"; cp /repo/Cargo.lock /tmp/devrepo/ 2>/dev/null
+# SEED=<patch.diff>: run against the private checkout with that seeded change applied (undone afterwards)
+if [ -n "$SEED" ]; then git -C /tmp/devrepo apply "$(readlink -f "$SEED")" || { echo "seed does not apply"; exit 2; }; trap 'git -C /tmp/devrepo checkout -q -- .' EXIT; fi
 mkdir -p /tmp/verif_dev
 rsync -a --delete --exclude '.git' --exclude 'target*' --exclude 'evidence' /verif/ /tmp/verif_dev/
 mkdir -p /tmp/verif_dev/evidence
 sed -i 's|path = "/repo"|path = "/tmp/devrepo"|' /tmp/verif_dev/engine/Cargo.toml /tmp/verif_dev/sched/Cargo.toml /tmp/verif_dev/probe_c14/Cargo.toml
-cd /tmp/verif_dev && VERIF_HOME=/tmp/verif_dev VERIF_HAVE_REPO_LOCK=1 ./check "$@"
+cd /tmp/verif_dev && VERIF_HOME=/tmp/verif_dev VERIF_HAVE_REPO_LOCK=1 ./check "$@"; exit $?
